@@ -196,16 +196,16 @@ def rand_text_value(rng):
 
 
 # ---------------------------------------------------------------------------------------------------------------
-HEAVY = ("put_model", "reload_model", "export", "stored_normal")      # whole objects / collections per case: small shards (memory)
+HEAVY = ("put_model", "reload_model", "export")      # whole objects / collections per case: small shards (memory)
 
 
-def corr(ctx, tag, fn, cases, ie, oe, eqb, key=None, nontrivial=None, header=None):
+def corr(ctx, tag, fn, cases, ie, oe, eqb, key=None, nontrivial=None):
     for i, o in cases:
         k = key(i) if key else repr(i)
         ctx.case((tag, k), nontrivial=(nontrivial(i, o) if nontrivial else True))
     ctx.count("cases:" + tag, len(cases))
     ctx.log("correspondence", tag, len(cases), "cases")
-    bad = ctx.diff_cases("c14_" + tag, header or HEADER, fn, cases, ie, oe, eqb, shard=max(1, min(4 if tag == "export" else 25 if tag in HEAVY else 150, -(-len(cases) // 16))))
+    bad = ctx.diff_cases("c14_" + tag, HEADER, fn, cases, ie, oe, eqb, shard=max(1, min(4 if tag == "export" else 25 if tag in HEAVY else 150, -(-len(cases) // 16))))
     if bad is None:
         return None
     ok = not bad
@@ -415,8 +415,25 @@ def run(ctx):
             stored.append((o, 3 if stored_outside_py(o) else 0))
     ctx.count("stored_normal:premise-observed", sum(1 for _, e in stored if e == 0))
     ctx.count("stored_normal:outside-documented", sum(1 for _, e in stored if e == 3))
-    corr(ctx, "stored_normal", "stored_check", stored, enc_str, enc_N, "stored_check_ok",
-         header=HEADER + "Require Import RV.Proofs.C14Compose.\n", nontrivial=lambda i, o: o == 0)
+    hdr = HEADER + "Require Import RV.Proofs.C14Compose.\n"
+    for o, e in stored:
+        ctx.case(("stored_normal", o), nontrivial=(e == 0))
+    ctx.count("cases:stored_normal", len(stored))
+    ctx.log("correspondence", "stored_normal", len(stored), "cases")
+    bad = ctx.diff_cases("c14_stored_normal", hdr, "stored_check", stored, enc_str, enc_N, "stored_check_ok",
+                         shard=max(1, min(25, -(-len(stored) // 16))))
+    if bad is not None:
+        detail = ""
+        if bad:
+            try:
+                cls = ctx.coq_show(hdr, "stored_check %s" % enc_str(stored[bad[0]][0]))[-80:]
+            except Exception as e:      # the classification is only for the message
+                cls = "not evaluated (%s)" % e
+            detail = ("%d of %d stored texts are not in the normal form the composition theorem needs (C14Compose.stored_check: 1 = premises "
+                      "hold but put_model changes the text, 2 = a premise of put_side_ok fails, 3 = outside class the harness does not "
+                      "recognise); first: class %s, harness expected %d, text %r" % (len(bad), len(stored), cls, stored[bad[0]][1], stored[bad[0]][0]))
+            ctx.extra.setdefault("disagreements", {})["stored_normal"] = [repr(stored[b])[:600] for b in bad[:3]]
+        ctx.obligation("correspondence:stored_normal", not bad, detail)
     ctx.samples += [dict(upload=t[:400], stored=(o or "")[:400]) for t, o in put_cases[:2]]
     for k, v in list(g.features.items()) + list(gc.features.items()):
         ctx.count("grammar:" + k, v)
